@@ -139,13 +139,14 @@ type LeaderObs struct {
 }
 
 type Case struct {
-	ID        int       `json:"id"`
-	TLS       bool      `json:"tls_passthrough"`
-	CertMgr   bool      `json:"cert_manager"`
-	Histories []History `json:"histories"`
-	Ctl       []CtlStep `json:"ctl,omitempty"` // main history through LoadBalancerController.sync (with -ctl)
-	Leader    *LeaderObs `json:"leader,omitempty"`
-	Error     string    `json:"error,omitempty"`
+	ID          int               `json:"id"`
+	TLS         bool              `json:"tls_passthrough"`
+	CertMgr     bool              `json:"cert_manager"`
+	Histories   []History         `json:"histories"`
+	Ctl         []CtlStep         `json:"ctl,omitempty"` // main history through LoadBalancerController.sync (with -ctl)
+	Leader      *LeaderObs        `json:"leader,omitempty"`
+	WeightProbe *k8s.VWeightProbe `json:"weight_probe,omitempty"`
+	Error       string            `json:"error,omitempty"`
 }
 
 // ---------- building real objects ----------
@@ -1021,6 +1022,8 @@ func runCtl(c *Case, anns map[string]int) (err error) {
 		}
 		c.Ctl = append(c.Ctl, CtlStep{Events: evs, Writes: writes, VErr: verr, Probe: v.LastProbe, Render: v.Mergeable(), Files: mgr.files(), Hosts: v.Arb.Hosts(), LHosts: v.Arb.LHosts(), Res: v.Arb.Resources()})
 	}
+	wp := v.WeightProbe()
+	c.WeightProbe = &wp
 	c.Leader = &LeaderObs{Writes: v.Leader(), Policies: k8s.VerifPolicies}
 	return nil
 }
